@@ -172,3 +172,11 @@ package idxfile
 //gvc:  sink ReadAt requires name: arg1 == s.namesStart + mid * s.hashSize && lo <= mid && mid < hi && len(arg0) == s.hashSize
 //gvc:  ensures window: err == nil && len(prefix) > 0 && typeis(it, "lazyPrefixIter") && field(it, "lazyPrefixIter.idx") != nil ==> field(it, "lazyPrefixIter.s") == s && 0 <= field(it, "lazyPrefixIter.pos") && field(it, "lazyPrefixIter.end") <= s.count
 //gvc:end
+
+// Writer.Finished reads the flag OnFooter sets.
+//gvc:func (*Writer).Finished
+//gvc:  props C18
+//gvc:  theory int
+//gvc:  requires nn: w != nil
+//gvc:  ensures flag: result == w.finished
+//gvc:end
